@@ -1,24 +1,24 @@
 package main
 
 func init() {
-	reg("C06", propCfg{Pkg: "props", Quick: tierCfg{8, 600}, Thorough: tierCfg{14, 25000}})
-	reg("C14", propCfg{Pkg: "props", Quick: tierCfg{12, 25}, Thorough: tierCfg{14, 800}})
-	reg("C13", propCfg{Pkg: "props", Quick: tierCfg{8, 400}, Thorough: tierCfg{14, 12000}})
+	reg("C06", propCfg{Pkg: "props", Quick: tierCfg{12, 1500}, Thorough: tierCfg{14, 25000}})
+	reg("C14", propCfg{Pkg: "props", Quick: tierCfg{12, 40}, Thorough: tierCfg{14, 800}})
+	reg("C13", propCfg{Pkg: "props", Quick: tierCfg{12, 1200}, Thorough: tierCfg{14, 12000}})
 	reg("C07", propCfg{Pkg: "props", Quick: tierCfg{12, 120}, Thorough: tierCfg{14, 4000}})
 	reg("C20", propCfg{Pkg: "props", Race: true, Quick: tierCfg{12, 25}, Thorough: tierCfg{14, 1200}})
-	reg("C17", propCfg{Pkg: "props", Quick: tierCfg{12, 30}, Thorough: tierCfg{14, 500}})
-	reg("C05", propCfg{Pkg: "props", Quick: tierCfg{12, 8}, Thorough: tierCfg{14, 100}})
-	reg("C04", propCfg{Pkg: "props", Quick: tierCfg{12, 10}, Thorough: tierCfg{14, 150}})
-	reg("C16", propCfg{Pkg: "props", Quick: tierCfg{8, 700}, Thorough: tierCfg{14, 30000}})
-	reg("C08", propCfg{Pkg: "props", Quick: tierCfg{8, 700}, Thorough: tierCfg{14, 30000}})
-	reg("C15", propCfg{Pkg: "props", Quick: tierCfg{12, 10}, Thorough: tierCfg{14, 150}})
-	reg("C09", propCfg{Pkg: "props", Quick: tierCfg{12, 10}, Thorough: tierCfg{14, 150}})
-	reg("C03", propCfg{Pkg: "props", Quick: tierCfg{12, 10}, Thorough: tierCfg{14, 150}})
-	reg("C02", propCfg{Pkg: "props", Quick: tierCfg{12, 10}, Thorough: tierCfg{14, 150}})
-	reg("C10", propCfg{Pkg: "props", Quick: tierCfg{8, 1000}, Thorough: tierCfg{14, 30000}})
-	reg("C11", propCfg{Pkg: "props", Quick: tierCfg{8, 1000}, Thorough: tierCfg{14, 30000}})
-	reg("C12", propCfg{Pkg: "props", Quick: tierCfg{8, 1000}, Thorough: tierCfg{14, 30000}})
-	reg("C18", propCfg{Pkg: "props", Quick: tierCfg{12, 700}, Thorough: tierCfg{14, 30000}})
-	reg("C01", propCfg{Pkg: "props", Quick: tierCfg{12, 500}, Thorough: tierCfg{14, 20000}})
+	reg("C17", propCfg{Pkg: "props", Quick: tierCfg{12, 60}, Thorough: tierCfg{14, 500}})
+	reg("C05", propCfg{Pkg: "props", Quick: tierCfg{12, 14}, Thorough: tierCfg{14, 100}})
+	reg("C04", propCfg{Pkg: "props", Quick: tierCfg{12, 16}, Thorough: tierCfg{14, 150}})
+	reg("C16", propCfg{Pkg: "props", Quick: tierCfg{12, 2000}, Thorough: tierCfg{14, 30000}})
+	reg("C08", propCfg{Pkg: "props", Quick: tierCfg{12, 2000}, Thorough: tierCfg{14, 30000}})
+	reg("C15", propCfg{Pkg: "props", Quick: tierCfg{12, 16}, Thorough: tierCfg{14, 150}})
+	reg("C09", propCfg{Pkg: "props", Quick: tierCfg{12, 16}, Thorough: tierCfg{14, 150}})
+	reg("C03", propCfg{Pkg: "props", Quick: tierCfg{12, 16}, Thorough: tierCfg{14, 150}})
+	reg("C02", propCfg{Pkg: "props", Quick: tierCfg{12, 16}, Thorough: tierCfg{14, 150}})
+	reg("C10", propCfg{Pkg: "props", Quick: tierCfg{12, 3000}, Thorough: tierCfg{14, 30000}})
+	reg("C11", propCfg{Pkg: "props", Quick: tierCfg{12, 3000}, Thorough: tierCfg{14, 30000}})
+	reg("C12", propCfg{Pkg: "props", Quick: tierCfg{12, 3000}, Thorough: tierCfg{14, 30000}})
+	reg("C18", propCfg{Pkg: "props", Quick: tierCfg{12, 2000}, Thorough: tierCfg{14, 30000}})
+	reg("C01", propCfg{Pkg: "props", Quick: tierCfg{12, 800}, Thorough: tierCfg{14, 20000}})
 	reg("C19", propCfg{Pkg: "props", Quick: tierCfg{4, 5000}, Thorough: tierCfg{14, 150000}})
 }
